@@ -497,7 +497,15 @@ func TestC13_Edges(t *testing.T) {
 		interval := time.Second
 		var err error
 		var desc string
-		if rapid.Bool().Draw(t, "startAcross") {
+		if kind := rapid.SampledFrom([]string{"late", "other", "other"}).Draw(t, "edgeKind"); kind == "late" {
+			// an interval longer than a second whose first write comes late in the interval (a quiet
+			// service): it belongs to that interval's file all the same
+			iv := rapid.SampledFrom([]int{2, 3}).Draw(t, "intervalS")
+			lateMS := rapid.SampledFrom([]int{1200, 1700, 1050}).Draw(t, "lateMS")
+			desc = fmt.Sprintf("late-first-write interval=%ds first write %d ms after the boundary", iv, lateMS)
+			vk.Class("edges:late-first-write")
+			err = lateFirstWrite(dir, time.Duration(iv)*time.Second, lateMS)
+		} else if rapid.Bool().Draw(t, "startAcross") {
 			apps := rapid.SampledFrom([]int{12, 24, 6, 40}).Draw(t, "appenders")
 			afterMS := rapid.SampledFrom([]int{300, 120, 600}).Draw(t, "writeAfterMS")
 			fresh := rapid.Bool().Draw(t, "freshValue")
@@ -526,6 +534,30 @@ func TestC13_Edges(t *testing.T) {
 		}
 		_ = os.RemoveAll(dir)
 	})
+}
+
+// lateFirstWrite: one writer, one record shortly after Start, then silence until lateMS after the
+// next boundary (more than a second into the new interval), then two more records.
+func lateFirstWrite(dir string, interval time.Duration, lateMS int) error {
+	app := &log.RollingFileAppender{AppenderBase: log.AppenderBase{Name: "r"}, FileDir: dir, FileName: "q.log", Rotation: log.TimeRotation{Interval: interval}, MaxAge: 1000}
+	if err := app.Start(); err != nil {
+		return fmt.Errorf("VERIF-INCONCLUSIVE: %v", err)
+	}
+	var all []rec
+	put := func(seq int) {
+		line := fmt.Sprintf("w0:%d:1:%08x|q\n", seq, crc32.ChecksumIEEE([]byte("q")))
+		t0 := time.Now()
+		app.Write([]byte(line))
+		all = append(all, rec{0, seq, "q", 1, t0, time.Now()})
+	}
+	put(0)
+	b := time.Now().Truncate(interval).Add(interval)
+	time.Sleep(time.Until(b.Add(time.Duration(lateMS) * time.Millisecond)))
+	put(1)
+	time.Sleep(120 * time.Millisecond)
+	put(2)
+	app.Stop()
+	return judge("q.log", dir, interval, all, true).err
 }
 
 func startAcross(base string, interval time.Duration, apps, afterMS int, fresh bool) error {
